@@ -71,9 +71,13 @@ struct Env {
         else if (updkind == "user-shift") { for (auto &v : x) v += updmag; }
         // "none": nothing
     }
+    // a box domain may be supplied as the library's own TasDREAM::hypercube() object, built by a factory from temporaries (as the C interface does)
+    bool use_hypercube = false; TasDREAM::DreamDomain hyper;
+    void makeHypercube() { std::vector<double> lo(d, domlo), hi(d, domhi); hyper = TasDREAM::hypercube(lo, hi); }
     bool inside(const std::vector<double> &x) {
         bool r = true;
-        if (domkind == "box") { for (double v : x) if (v < domlo || v > domhi) r = false; }
+        if (domkind == "box" && use_hypercube) { r = hyper(x); if (st) st->inc("reach.domain_is_library_hypercube"); }
+        else if (domkind == "box") { for (double v : x) if (v < domlo || v > domhi) r = false; }
         else if (domkind == "halfspace") { double s = 0; for (double v : x) s += v; r = (s >= domlo); }
         else if (domkind == "all") r = true;
         else if (domkind == "none") r = false;
@@ -335,6 +339,7 @@ public:
         p["draw_seed"] = (long long)(w.next() >> 1);
         p["c_interface"] = w.chance(0.2);
         p["pdf_fails_first"] = w.chance(0.08);
+        p["hypercube"] = w.chance(0.3);
         p["posterior"] = w.pick<std::string>({"none", "none", "none", "merged", "three"}); p["priorscale"] = w.pick<double>({0.1, 1.0, 3.0});
         if (w.chance(0.3)) { // a second run on the same state object after the caller re-seeded the chains
             Json rs = Json::object(); rs["how"] = w.chance(0.5) ? "function" : "vector";
@@ -371,6 +376,7 @@ public:
         std::string u = p.gets("update", "none");
         env.updkind = u; env.updmag = p.getd("updmag", 0.0);
         env.diffkind = p.gets("diff", "one");
+        env.use_hypercube = p.getb("hypercube") && env.domkind == "box"; if (env.use_hypercube) env.makeHypercube();
         env.posterior = p.gets("posterior", "none"); env.priorscale = p.getd("priorscale", 1.0);
         env.draws = Rng((uint64_t)p.geti("draw_seed", 1));
         env.st = &st;
